@@ -259,7 +259,7 @@ impl Driver for C20 {
         10.0
     }
     fn units(&self, tier: Tier) -> usize {
-        tier.pick(6400, 64000)
+        tier.pick(6400, 200000)
     }
     fn run_unit(&self, ctx: &Ctx, out: &mut UnitOut, start: usize, only: Option<usize>) {
         let mut rng = unit_rng(ctx, "C20", out.unit);
